@@ -260,8 +260,25 @@ def p4(ck: Check) -> dict[str, str]:
     acc = recompute_accessors(ck)
     ck.note("recompute-on-demand accessors: " + ", ".join(f"{k}<-{v.split('.')[1]}" for k, v in sorted(acc.items())))
     fm = _sd(ck, "reclaim_node_data")
+    all_fields = ck.prog.repo.typeddict_keys("NodeData")
     for e in fm.field_events():
         if e.kind != "store":
+            continue
+        if e.field == "*":
+            flds = fm.dynamic_fields(e, all_fields)
+            if flds is None:
+                ck.ob("P4", fm, e.stmt, False, "reclaim stores under a key computed at run time; the set of fields it "
+                                               "clears cannot be determined")
+                continue
+            lost = sorted(f for f in flds if f not in acc)
+            probs = []
+            if not is_none(e.value):
+                probs.append(f"reclaim stores `{text(e.value)}` (only None is transparent)")
+            if lost:
+                probs.append(f"field(s) {lost} are cleared but have no recompute-on-demand accessor: the information is "
+                             f"lost for good")
+            ck.ob("P4", fm, e.stmt, not probs, "; ".join(probs) if probs else
+                  f"fields {sorted(flds)} dropped; each is recomputed on demand")
             continue
         probs = []
         if not is_none(e.value):
@@ -286,7 +303,13 @@ def p4(ck: Check) -> dict[str, str]:
 def p5(ck: Check, acc: dict[str, str]) -> None:
     prog = ck.prog
     reclaim = _sd(ck, "reclaim_node_data")
-    cleared = {e.field for e in reclaim.field_events() if e.kind == "store"}
+    cleared = set()
+    for e in reclaim.field_events():
+        if e.kind == "store":
+            if e.field == "*":
+                cleared |= (reclaim.dynamic_fields(e, prog.repo.typeddict_keys("NodeData")) or set())
+            else:
+                cleared.add(e.field)
     for fm in prog.models():
         for e in fm.field_events():
             if e.kind != "load" or e.field not in cleared:
